@@ -64,29 +64,75 @@ def run(prog, rep):
                     if is_write_open(c):
                         opens.append(n)
         rep.check(len(opens) == 1, "ORDER-2", "%s: one write-mode open" % f.short, "ok", "expected exactly one write-mode open in cache_load", f.where)
-        fetch = _node_with(g, lambda n: n.kind == "stmt" and "urlopen(" in unparse(n.ast) and ".read()" in unparse(n.ast))
-        dec = _node_with(g, lambda n: n.kind == "stmt" and ".decode(" in unparse(n.ast))
-        rep.check(len(fetch) == 1 and len(dec) == 1, "ORDER-2", "%s: fetch and decode statements" % f.short, "ok",
-                  "cache_load no longer has one fetch and one decode statement", f.where)
-        if len(opens) == 1 and len(fetch) == 1 and len(dec) == 1:
+        # the statements that compute what is written: definitions reaching the <file>.write(...) argument, followed backwards
+        x = Expander(f, g, inline=prog)
+        chain_nodes = []
+        if len(opens) == 1:
             o = opens[0]
-            rep.check(g.dominates(fetch[0], o) and g.dominates(dec[0], o) and g.dominates(fetch[0], dec[0]), "ORDER-2",
+            writes = [n for n in g.nodes if n.kind == "stmt" and g.dominates(o, n) and n.id != o.id
+                      and any(isinstance(c.func, ast.Attribute) and c.func.attr == "write" for c in calls_in(n.ast))]
+            todo = []
+            for w in writes:
+                for c in calls_in(w.ast):
+                    if isinstance(c.func, ast.Attribute) and c.func.attr == "write":
+                        todo += [(w, y.id) for a0 in c.args for y in ast.walk(a0) if isinstance(y, ast.Name)]
+            seen_defs = set()
+            depth = 0
+            while todo and depth < 6:
+                nxt = []
+                for at, name in todo:
+                    for d in reaching_defs(g, at, name):
+                        if d.kind == "entry" or d.id in seen_defs:
+                            continue
+                        seen_defs.add(d.id)
+                        chain_nodes.append(d)
+                        v = def_value(d, name)
+                        if v is not None:
+                            nxt += [(d, y.id) for y in ast.walk(v) if isinstance(y, ast.Name) and isinstance(y.ctx, ast.Load)]
+                todo = nxt
+                depth += 1
+        texts = [x.text(n.ast.value, n) if isinstance(n.ast, ast.Assign) else unparse(n.ast) for n in chain_nodes]
+        # a definition computed by a private helper is read through the helper's return values; the helper must let a failing
+        # fetch out (a handler that returns normally would hand a non-text value to the writer)
+        from ..symtext import _is_private_helper_call
+        for i, n in enumerate(list(chain_nodes)):
+            v = n.ast.value if isinstance(n.ast, ast.Assign) else None
+            tgt = _is_private_helper_call(f, v) if isinstance(v, ast.Call) else None
+            if tgt is None or tgt is f:
+                continue
+            rep.saw_function(tgt)
+            hg = build_cfg(tgt)
+            hx = Expander(tgt, hg, inline=prog)
+            rets = [m for m in hg.nodes if m.kind == "return" and m.ast.value is not None]
+            texts[i] = texts[i] + " = " + " | ".join(hx.text(m.ast.value, m) for m in rets)
+            swallowing = [hn for m in rets for h in enclosing_handlers(hg, m) for k2, hn in h.succ
+                          if k2 == "except" and hg.reaches(hn, hg.exit, skip_kinds=("exc",))]
+            rep.check(not swallowing, "ORDER-2", "%s: %s lets a failing fetch out" % (f.short, tgt.name), "handlers re-raise",
+                      "%s catches the failure of the fetch and returns normally: cache_load goes on and writes the cache file" % tgt.name,
+                      tgt.where, witness="an unreachable resource leaves a cache file holding 'None'")
+        fetch = [n for n, t in zip(chain_nodes, texts) if "urlopen(" in t and ".read()" in t]
+        dec = [n for n, t in zip(chain_nodes, texts) if ".decode(" in t]
+        rep.check(len(fetch) >= 1 and len(dec) >= 1, "ORDER-2", "%s: fetch and decode statements" % f.short, "ok",
+                  "what cache_load writes into the cache file is not computed from urlopen(..).read() and .decode(..): %s" % texts, f.where)
+        if len(opens) == 1 and fetch and dec:
+            o = opens[0]
+            rep.check(all(g.dominates(n, o) for n in fetch + dec), "ORDER-2",
                       "%s: fetch and decode complete before the cache file is opened" % f.short, "dominance",
                       "the cache file can be opened before the resource was fetched and decoded: a failing fetch/decode leaves an empty or truncated cache file",
                       where(f, o.ast), witness="a resource that cannot be read or is not valid UTF-8, cache empty or stale")
-            for st in (fetch[0], dec[0]):
+            for st in sorted(set(fetch + dec), key=lambda n: n.id):
+                # a failure of the statement must not lead to the open: every handler around it leaves the function (return /
+                # re-raise) without reaching the open; without a handler the exception leaves cache_load by itself
                 hs = enclosing_handlers(g, st)
-                ok = False
+                ok = True
                 for h in hs:
                     for k2, hn in h.succ:
-                        if k2 == "except":
-                            # the handler must leave the function without reaching the open
-                            if not g.reaches(hn, o, skip_kinds=("exc",)):
-                                ok = True
-                rep.check(ok, "ORDER-2", "%s: `%s` failing reaches no write" % (f.short, unparse(st.ast)[:30]), "handler leaves the function",
-                          "`%s` is not inside a try whose handler leaves cache_load before the cache file is written: a failing fetch "
-                          "raises out of load()/the loader thread or still writes the file" % unparse(st.ast)[:50], where(f, st.ast),
-                          witness="load(url) of an unreachable/undecodable resource raises instead of returning None")
+                        if k2 == "except" and g.reaches(hn, o, skip_kinds=("exc",)):
+                            ok = False
+                rep.check(ok, "ORDER-2", "%s: `%s` failing reaches no write" % (f.short, unparse(st.ast)[:30]), "the failure leaves the function",
+                          "a handler around `%s` continues to the statement that opens the cache file: a failing fetch still writes the file"
+                          % unparse(st.ast)[:50], where(f, st.ast),
+                          witness="load(url) of an unreachable/undecodable resource leaves an empty cache file")
         compute_before_open(prog, rep, [f], "ORDER-1")
 
     for modname, cname in IMPLS:
